@@ -21,3 +21,56 @@ package types
 //@ func IsTrue [C07 C19]
 //@   modifies nothing
 //@   ensures imp(exitNum > 0, !result) && imp(exitNum < 0, result)
+
+// ---- C13: scalar <-> string conversions -----------------------------------------------------------------
+// Each conversion function is bound to the strconv function (and arguments) the round trip needs;
+// the round trips themselves are the lemma harnesses in zz_verif_lemmas.go, proved over these
+// contracts plus the strconv axioms of /verif/specs/stdlib.spec.
+
+//@ func FloatToString [C13 C19]
+//@   modifies nothing
+//@   ensures result == $fmtFloat(f) && len(result) > 0 && $trim(result) == result && $parseOk(result)
+//@   ensures imp(finite(f), same($parseFloat(result), f))
+
+//@ func goIntegerRecast [C13 C19]
+//@   modifies nothing
+//@   ensures result1 == nil
+//@   ensures imp(dataType == "str", typeis(result, string) && unbox(result, string) == $itoa(v))
+//@   ensures imp(dataType == "str", len(unbox(result, string)) > 0 && $trim(unbox(result, string)) == unbox(result, string) && $parseOk(unbox(result, string)))
+//@   ensures imp(dataType == "str" && -9007199254740992 < v && v < 9007199254740992, same($parseFloat(unbox(result, string)), float64(v)))
+//@   ensures imp(dataType == "int" || dataType == "*", typeis(result, int) && unbox(result, int) == v)
+//@   ensures imp(dataType == "num" || dataType == "float", typeis(result, float64) && same(unbox(result, float64), float64(v)))
+//@   ensures imp(dataType == "bool", typeis(result, bool) && unbox(result, bool) == (v != 0))
+
+//@ func goFloatRecast [C13 C19]
+//@   modifies nothing
+//@   ensures result1 == nil
+//@   ensures imp(dataType == "str", typeis(result, string) && unbox(result, string) == $fmtFloat(v))
+//@   ensures imp(dataType == "str", len(unbox(result, string)) > 0 && $trim(unbox(result, string)) == unbox(result, string) && $parseOk(unbox(result, string)))
+//@   ensures imp(dataType == "str" && finite(v), same($parseFloat(unbox(result, string)), v))
+//@   ensures imp(dataType == "num" || dataType == "float" || dataType == "*", typeis(result, float64) && same(unbox(result, float64), v))
+//@   ensures imp(dataType == "int", typeis(result, int) && unbox(result, int) == int(v))
+
+//@ func goBooleanRecast [C13 C19]
+//@   modifies nothing
+//@   ensures result1 == nil
+//@   ensures imp(dataType == "str", typeis(result, string))
+//@   ensures imp(dataType == "bool" || dataType == "*", typeis(result, bool) && unbox(result, bool) == v)
+//@   ensures imp(dataType == "int", typeis(result, int) && unbox(result, int) == ite(v, 1, 0))
+
+// string -> scalar: white space is trimmed, the empty string counts as 0, numbers go through
+// ParseFloat(., 64) (so "1e3" and "0x10" are numbers too), booleans through the truthiness table.
+//@ spec $orZero(s string) string = ite(s == "", "0", s)
+//@ func goStringRecast [C13 C19]
+//@   ensures imp(dataType == "str" || dataType == "*", result1 == nil && typeis(result, string) && unbox(result, string) == v)
+//@   ensures imp(dataType == "int", typeis(result, int) && unbox(result, int) == int($parseFloat($orZero($trim(v)))) && (result1 == nil) == $parseOk($orZero($trim(v))))
+//@   ensures imp(dataType == "num" || dataType == "float", typeis(result, float64) && same(unbox(result, float64), $parseFloat($orZero($trim(v)))) && (result1 == nil) == $parseOk($orZero($trim(v))))
+//@   ensures imp(dataType == "bool", result1 == nil && typeis(result, bool))
+
+// Round trips (lemma harnesses, real Go, never executed):
+//@ func verifLemmaIntRoundTrip [C13]
+//@   requires -9007199254740992 < v && v < 9007199254740992
+//@   ensures result == v && result1 == nil
+//@ func verifLemmaFloatRoundTrip [C13]
+//@   requires finite(f)
+//@   ensures same(result, f) && result1 == nil
